@@ -216,24 +216,47 @@ Definition build_items (l : list (href * cid)) : list (href * etag) :=
 
 Definition survive {A} (sub : bool) (l : list A) : list A := if sub then l else [].
 
+(* collection-level effect of each storage call; [hs] threads (history, seed) *)
+Definition put_coll (cfg : config) (now : Z) (seed : N) (x : coll) (h : href) (e : etag) : coll * N :=
+  let items := ains h e (c_items x) in
+  let '((hi, seed'), _) := upd_hist now (c_hist x, seed) h (Some e) in      (* upload.py:65 / move.py:65 *)
+  (mkColl true items (clean_history cfg now items hi) (c_toks x), seed').   (* upload.py:66 *)
+
+Definition del_coll (cfg : config) (now : Z) (seed : N) (x : coll) (h : href) : coll * N :=
+  let items := adel h (c_items x) in
+  let '((hi, seed'), _) := upd_hist now (c_hist x, seed) h None in          (* delete.py:55 / move.py:66 *)
+  (mkColl true items (clean_history cfg now items hi) (c_toks x), seed').
+
+(* move.py inside one collection: os.replace, then history of target, history of source, one _clean_history *)
+Definition move_same_coll (cfg : config) (now : Z) (seed : N) (x : coll) (h h2 : href) (e : etag) : coll * N :=
+  let items := if N.eqb h h2 then c_items x else ains h2 e (adel h (c_items x)) in
+  let '(hs1, _) := upd_hist now (c_hist x, seed) h2 (Some e) in
+  let '((hi, seed'), _) := upd_hist now hs1 h None in
+  (mkColl true items (clean_history cfg now items hi) (c_toks x), seed').
+
+Definition reset_coll (cfg : config) (x : coll) (ex : bool) (items : list (href * etag)) : coll :=
+  mkColl ex items (survive (sub_hist cfg) (c_hist x)) (survive (sub_tok cfg) (c_toks x)).
+
+Definition dropcache_coll (cfg : config) (x : coll) (inroot : bool) : coll :=
+  (* the folder removed holds the history iff (inroot <-> not sub_hist) *)
+  mkColl (c_exists x) (c_items x)
+         (if Bool.eqb inroot (sub_hist cfg) then c_hist x else [])
+         (if Bool.eqb inroot (sub_tok cfg) then c_toks x else []).
+
 Definition step (cfg : config) (st : state) (o : op) : state * result :=
   let now := st_now st in
   match o with
   | Put c h e =>
       let x := getc st c in
       if c_exists x then
-        let items := ains h (EText e) (c_items x) in
-        let '((hi, seed), _) := upd_hist now (c_hist x, st_seed st) h (Some (EText e)) in
-        let hi := clean_history cfg now items hi in
-        (set_seed (setc st c (mkColl true items hi (c_toks x))) seed, RUnit)
+        let '(x', seed) := put_coll cfg now (st_seed st) x h (EText e) in
+        (set_seed (setc st c x') seed, RUnit)
       else (st, RNoColl)
   | Del c h =>
       let x := getc st c in
       if c_exists x && amem h (c_items x) then
-        let items := adel h (c_items x) in
-        let '((hi, seed), _) := upd_hist now (c_hist x, st_seed st) h None in
-        let hi := clean_history cfg now items hi in
-        (set_seed (setc st c (mkColl true items hi (c_toks x))) seed, RUnit)
+        let '(x', seed) := del_coll cfg now (st_seed st) x h in
+        (set_seed (setc st c x') seed, RUnit)
       else (st, RNoColl)
   | Move c h c2 h2 =>
       let x := getc st c in
@@ -242,37 +265,19 @@ Definition step (cfg : config) (st : state) (o : op) : state * result :=
       | None => (st, RNoColl)
       | Some e =>
           if N.eqb c c2 then
-            let items := if N.eqb h h2 then c_items x else ains h2 e (adel h (c_items x)) in
-            let '(hs1, _) := upd_hist now (c_hist x, st_seed st) h2 (Some e) in
-            let '((hi, seed), _) := upd_hist now hs1 h None in
-            let hi := clean_history cfg now items hi in
-            (set_seed (setc st c (mkColl true items hi (c_toks x))) seed, RUnit)
+            let '(x', seed) := move_same_coll cfg now (st_seed st) x h h2 e in
+            (set_seed (setc st c x') seed, RUnit)
           else
-            let items2 := ains h2 e (c_items y) in
-            let items1 := adel h (c_items x) in
-            let '((hi2, seed1), _) := upd_hist now (c_hist y, st_seed st) h2 (Some e) in
-            let '((hi1, seed2), _) := upd_hist now (c_hist x, seed1) h None in
-            let hi2 := clean_history cfg now items2 hi2 in
-            let hi1 := clean_history cfg now items1 hi1 in
-            let st1 := setc st c2 (mkColl true items2 hi2 (c_toks y)) in
-            let st2 := setc st1 c (mkColl true items1 hi1 (c_toks x)) in
-            (set_seed st2 seed2, RUnit)
+            (* target history first, then source history; then _clean_history of target, of source *)
+            let '(y', seed1) := put_coll cfg now (st_seed st) y h2 e in
+            let '(x', seed2) := del_coll cfg now seed1 x h in
+            (set_seed (setc (setc st c2 y') c x') seed2, RUnit)
       end
-  | Replace c l =>
-      let x := getc st c in
-      (setc st c (mkColl true (build_items l) (survive (sub_hist cfg) (c_hist x)) (survive (sub_tok cfg) (c_toks x))),
-       RUnit)
+  | Replace c l => (setc st c (reset_coll cfg (getc st c) true (build_items l)), RUnit)
   | DelColl c =>
       let x := getc st c in
-      if c_exists x then
-        (setc st c (mkColl false [] (survive (sub_hist cfg) (c_hist x)) (survive (sub_tok cfg) (c_toks x))), RUnit)
-      else (st, RNoColl)
-  | DropCache c inroot =>
-      let x := getc st c in
-      (* the folder removed holds the history iff (inroot <-> not sub_hist) *)
-      let hi := if Bool.eqb inroot (sub_hist cfg) then c_hist x else [] in
-      let ts := if Bool.eqb inroot (sub_tok cfg) then c_toks x else [] in
-      (setc st c (mkColl (c_exists x) (c_items x) hi ts), RUnit)
+      if c_exists x then (setc st c (reset_coll cfg x false []), RUnit) else (st, RNoColl)
+  | DropCache c inroot => (setc st c (dropcache_coll cfg (getc st c) inroot), RUnit)
   | Tick dt => (mkState (st_colls st) (now + Z.of_N dt) (st_seed st), RUnit)
   | Sync c a =>
       let x := getc st c in
